@@ -92,7 +92,11 @@ def r41(e: Engine, rep: Report):
                 n.func.id if isinstance(n.func, ast.Name) else '')
             if nm in FS_WRITE_PRIMS:
                 rep.evaluations += 1
-                rep.check(f.qname == FS_WRITE_PRIMS[nm], 'R4.1', f.qname,
+                # (a private helper only the owner refers to is part of it)
+                oc, _, om = FS_WRITE_PRIMS[nm].rpartition('.')
+                owners = {oc + '.' + x
+                          for x in common.owner_closure(e, oc, {om})}
+                rep.check(f.qname in owners, 'R4.1', f.qname,
                           'file-system write primitive %s' % nm,
                           '%s is used in %s, outside the temp-file + '
                           'rename writer: a crash can leave a half-written '
@@ -156,11 +160,34 @@ def r41(e: Engine, rep: Report):
                   'mkstemp does not use dir=self.tmp_dir: the temp file '
                   'may land in the scanned directory or on another file '
                   'system', loc=n.loc(), reason='dir=self.tmp_dir')
-    tmpvar = None
-    for s in g.of_kind('stmt'):
-        if isinstance(s.ast, ast.Assign) and s.ast.value is mk[0].ast and \
-                isinstance(s.ast.targets[0], ast.Tuple):
-            tmpvar = path_of(s.ast.targets[0].elts[1], s.frame)
+    # names that hold the path mkstemp returned (second element), followed
+    # through a helper that returns the pair and through `with ... as (fd,
+    # name)` of a context manager that yields it
+    tmpvars = set()
+    changed = True
+    while changed:
+        changed = False
+        for s in g.of_kind('stmt'):
+            if isinstance(s.ast, ast.Assign) and \
+                    isinstance(s.ast.targets[0], ast.Tuple) and \
+                    len(s.ast.targets[0].elts) == 2:
+                v, vf = common.value_of(g, s.ast.value, s.frame)
+                if any(v is m2.ast for m2 in mk):
+                    q = path_of(s.ast.targets[0].elts[1], s.frame)
+                    if q and q not in tmpvars:
+                        tmpvars.add(q)
+                        changed = True
+        for w in g.of_kind('with_enter'):
+            yv, yf = w.extra.get('yield_value'), w.extra.get('yield_frame')
+            ov = getattr(w.ast, 'optional_vars', None)
+            if isinstance(yv, ast.Tuple) and isinstance(ov, ast.Tuple) and \
+                    len(yv.elts) == len(ov.elts) and yf is not None:
+                for a, b in zip(yv.elts, ov.elts):
+                    if path_of(a, yf) in tmpvars:
+                        q = path_of(b, w.frame)
+                        if q and q not in tmpvars:
+                            tmpvars.add(q)
+                            changed = True
     before = dataflow.must_events_before(
         g, lambda n: ['mkstemp'] if n in mk else (
             ['write'] if n in wr else []))
@@ -168,7 +195,7 @@ def r41(e: Engine, rep: Report):
         rep.evaluations += 1
         st = before.get(n.id) or ()
         args = [path_of(a, n.frame) for a in n.ast.args]
-        ok_args = len(args) == 2 and args[0] == tmpvar and \
+        ok_args = len(args) == 2 and args[0] in tmpvars and \
             args[1] == 'self.path'
         rep.check('mkstemp' in st and 'write' in st and ok_args, 'R4.1',
                   where, 'publish = rename(temp, final) after the writes',
@@ -314,7 +341,7 @@ def r43(e: Engine, rep: Report):
 
 def r44(e: Engine, rep: Report, rule: str = 'R4.4'):
     ctx = e.method_ctx(DISK, 'load')
-    g = e.build(ctx)
+    g = e.build(ctx, inline=e.inline_same_self(), max_depth=3)
     where = ctx.func.qname
     rep.functions.add(where)
     reads = [n for n in g.calls() if e.call_name(n) == 'read_meta']
@@ -350,8 +377,11 @@ def r44(e: Engine, rep: Report, rule: str = 'R4.4'):
             inside = [m for m in g.nodes if any(
                 sc.kind == 'handler' and sc.ast is h.ast
                 for sc in m.scopes)]
-            leaves = [m for m in inside if m.kind == 'stmt' and
-                      isinstance(m.ast, (ast.Raise, ast.Return, ast.Break))]
+            # (a return inside a per-id helper ends that id, not the scan)
+            leaves = [m for m in inside if m.kind == 'stmt' and (
+                isinstance(m.ast, ast.Raise) or (
+                    isinstance(m.ast, (ast.Return, ast.Break)) and
+                    m.frame is g.entry.frame))]
             rep.check(not leaves, rule, where,
                       'the handler continues with the next id',
                       'the OSError arm of the scan raises / returns / '
